@@ -1,6 +1,6 @@
 """C19 — every generated type is public and carries the promised trait surface (template clauses)."""
 import re
-from lib import (norm_arm, walk, nodes, ends, src, psrc, outcome, contains_node, pat_top_variants, short, calls_in, block_last,
+from lib import (Canon, norm_arm, walk, nodes, ends, src, psrc, outcome, contains_node, pat_top_variants, short, calls_in, block_last,
                  strip_refs, guards, gtext, top_stmts, templates_in)
 import emit
 import tmplparse as tp
@@ -21,13 +21,8 @@ CMP = {"PartialOrd", "Ord", "PartialEq", "Eq", "Hash"}
 
 
 def derive_ops(em):
-    """(op, literal set, guards, node) for every mutation of the derive set in an emitter."""
-    out = []
-    for n, anc in nodes(em.h["body"], "mcall"):
-        if src(n["recv"]) == "derive_set" and n["name"] in ("extend", "insert", "remove", "retain", "clear", "append"):
-            lits = {x["v"]["str"] for x, _ in walk(n["args"]) if x.get("k") == "lit" and "str" in x["v"]}
-            out.append((n["name"], lits, guards(anc, n), n))
-    return out
+    """(op, literal set, canonical guards, node) for every mutation of the derive set in an emitter."""
+    return em.derive_set_ops()[0]
 
 
 def run(facts, rep, tier):
@@ -79,9 +74,11 @@ def run(facts, rep, tier):
         lits = {x["v"]["str"] for x, _ in walk(arr[0]) if x.get("k") == "lit"} if arr else set()
         rep.ob("C19.T2", "base-derive-set", lits == BASE, "base derives = %s" % sorted(lits), arr[0]["es"][0].get("sp") if arr and arr[0].get("es") else None)
         # each emitter receives it
-        s = src(outs[0]["body"])
+        cn = Canon(c, outs[0], 4)
         for kind, em in ems.items():
-            rep.ob("C19.T2", "base-set-passed:%s" % kind, ("%s(type_space, output, " % em.fn.split("::")[-1]) in s and "derive_set)" in s, "%s gets the base set" % em.fn.split("::")[-1])
+            calls = [n for n, _ in nodes(outs[0]["body"], "mcall") if n.get("fn") == em.fn]
+            ok = bool(calls) and any(re.search(r"\[\"::serde::Serialize\", \"::serde::Deserialize\", \"Debug\", \"Clone\"\]\.into_iter\(\)\.collect\(\)", cn.r(a)) for a in calls[0]["args"])
+            rep.ob("C19.T2", "base-set-passed:%s" % kind, ok, "%s receives the base set" % em.fn.split("::")[-1] if ok else "%s is not handed the base derive set" % em.fn.split("::")[-1])
     for kind, em in sorted(ems.items()):
         ops = derive_ops(em)
         removes = [o for o in ops if o[0] in ("remove", "retain", "clear")]
@@ -95,7 +92,7 @@ def run(facts, rep, tier):
             arms_removed.add(key)
         arms_impl = set()
         for t in deser_tmpls:
-            arm = [g[1] for g in t.guards if g[0] == "arm"]
+            arm = [g[1] for g in t.conds() if g[0] == "arm"]
             arms_impl.add(arm[-1] if arm else "top")
         for a in sorted(arms_removed | arms_impl):
             short_a = a.split("{")[0].split("(")[0].split("::")[-1]
@@ -116,14 +113,10 @@ def run(facts, rep, tier):
             key = "%s#%d" % (kind, sum(1 for o in rep.obligations if o["key"].startswith("C19.D1/cmp-derives-guard:%s#" % kind)))
             if kind == "enum":
                 allowed = CMP | {"Copy"}
-                want = "variants.iter().all(|variant| match variant.details { VariantDetails::Simple => true | _ => false })"
-                gok = len(conds) == 1 and conds[0][1].replace("&", "") == want
+                gok = len(conds) == 1 and bool(re.fullmatch(r"\S*~TypeEntryEnum\.variants\.iter\(\)\.all\(\|\.\.\| match elem<\S*~TypeEntryEnum\.variants\.iter\(\)>\.details \{ VariantDetails::Simple => true \| _ => false \}\)", conds[0][1]))
             elif kind == "newtype":
                 allowed = set(CMP)
-                gok = len(conds) == 1 and conds[0][1] == "is_str"
-                if gok:
-                    lets = [x for x, _ in nodes(em.h["body"], "let") if x["pat"].get("k") == "bind" and x["pat"]["name"] == "is_str"]
-                    gok = bool(lets) and src(lets[0]["init"]).replace("&", "") == "match inner_type.details { TypeEntryDetails::String => true | _ => false }"
+                gok = len(conds) == 1 and bool(re.fullmatch(r"match \S*\.id_to_entry\.get\(\S*~TypeEntryNewtype\.type_id\)\.unwrap\(\)\.details \{ TypeEntryDetails::String => true \| _ => false \}", conds[0][1]))
             else:
                 allowed = set()
                 gok = False
